@@ -730,6 +730,40 @@ theorem heap_overlay_writes_own_layer (h h' : Heap) (s s' : HOverlay) (op : OvOp
   · exact hw.get?_frame_wc (fun hb => hb.2 hPb) (hPlt b hPb)
   · exact hw.absH_frame_wc (fun b hb => Or.inl (fun hR => hR.2 (hr b hb))) hn
 
+/-! ### Non-vacuity on a concrete history
+
+  `ovHeap`: 0 nilLeaf · 1 leaf "v" · 2 list [#1, nilLeaf] · 3 {x: #1} — the caller's nodes. -/
+def ovHeap : Heap := ⟨[.leaf Scalar.null, .leaf ⟨"string", "v"⟩, .list [1, 0], .cont [("x", 1)]]⟩
+
+def ovOps : List OvOp := [.put "base" ["a", "b"] 2, .put "env" ["c"] 3,
+  .populate "env" ["d"] [("k", .leaf ⟨"int", "1"⟩), ("n", .leaf Scalar.null)]]
+
+/-- the state after the history, after `Layers()`, and after one more Put -/
+def ovRun : Option ((Heap × HOverlay) × (Heap × HOverlay) × (Heap × HOverlay)) :=
+  (applyOvOps ovHeap [] ovOps).bind fun r1 =>
+    (layersH r1.1 r1.2).bind fun r2 =>
+      (applyOvOps r2.1 r1.2 [.put "base" ["a", "z"] 1]).map fun r3 => (r1, r2, r3)
+
+/-- `ovRun` succeeds; `h1 s1` after the history, `h2 snaps` after `Layers()`, `h3 s3` after one more Put -/
+theorem nonvacuous_heap_overlay :
+    ovRun.isSome = true ∧
+    (ovRun.get!).1.2 = [("base", 4), ("env", 6)] ∧ (ovRun.get!).1.1.size = 10 ∧
+    -- Put of a list stores the caller's list #2 itself; Put of a container stores its LEAF #1 below a
+    -- NEW container #7 (not the caller's #3); Populate's null is the shared nil leaf #0
+    lookupH (ovRun.get!).1.1 (ovRun.get!).1.2 "base" ["a", "b"] = some 2 ∧
+    lookupH (ovRun.get!).1.1 (ovRun.get!).1.2 "env" ["c", "x"] = some 1 ∧
+    lookupH (ovRun.get!).1.1 (ovRun.get!).1.2 "env" ["c"] = some 7 ∧
+    lookupH (ovRun.get!).1.1 (ovRun.get!).1.2 "env" ["d", "n"] = some 0 ∧
+    -- the snapshots: new roots, same documents, every reachable cell new (≥ 10)
+    (ovRun.get!).2.1.2 = [("base", 14), ("env", 20)] ∧
+    abs (ovRun.get!).2.1.1 14 = abs (ovRun.get!).1.1 4 ∧ abs (ovRun.get!).2.1.1 20 = abs (ovRun.get!).1.1 6 ∧
+    (∀ b ∈ reach (ovRun.get!).2.1.1 14 ++ reach (ovRun.get!).2.1.1 20, 10 ≤ b) ∧
+    -- the later Put changes the layer, not the snapshot
+    abs (ovRun.get!).2.2.1 14 = abs (ovRun.get!).2.1.1 14 ∧
+    abs (ovRun.get!).2.2.1 4 ≠ abs (ovRun.get!).2.1.1 4 ∧
+    lookupH (ovRun.get!).2.2.1 (ovRun.get!).2.2.2 "base" ["a", "z"] = some 1 := by
+  decide +kernel
+
 end heap
 
 end Ytk.C06
